@@ -9,7 +9,7 @@ import (
 
 // which monitor keys belong to which property (harness-* keys are reported by both)
 var keysOf = map[string][]string{
-	"C27": {"over-limit", "total-mismatch", "shared-conn", "handout-dead", "wrong-conn"},
+	"C27": {"over-limit", "total-mismatch", "shared-conn", "handout-dead", "wrong-conn", "pool-panic"},
 	"C28": {"leak-", "waiter-not-served", "hang"},
 }
 
@@ -92,7 +92,6 @@ func report(c *hc.Ctx, prop string, outs []Outcome, expectBgOf bool) error {
 	}
 	c.Res.Rule = "a case is one scheduled run of a real pool.DC (max 0=unlimited,1..3; 1..5 concurrent DC.Invoke callers; fake connections whose readiness and death the scheduler controls; caller cancellation; Invoke results ok / error / retryable error); the scheduler serialises all goroutines at the verif scheduling points and picks the next action from the seeded generator (weights vary per run); non-trivial = the run contains a transfer to a waiter, a connection death or a cancellation; distinct = distinct schedule"
 	c.PartialNote("interleavings below the granularity of the scheduling points (inside a mutex critical section, Go memory model) are not exhibited; when several branches of a select are ready the Go runtime picks, the observed branch is what is replayed")
-	c.PartialNote("DC.Close and the DC context are not part of the model (closing kills every connection)")
 	ans, err := c.Drv.Batch(lines)
 	if err != nil {
 		return err
